@@ -2,3 +2,4 @@
    No proofs are required here, so the model still runs when a proof breaks. *)
 From Agdb Require Export Bytes Utf8 Codec DbValue Graph DbModel Search Queries FileWal.
 From Agdb Require Raft.
+From Agdb Require Export ExecSched.
